@@ -93,13 +93,37 @@ theorem roll_fold (j : Nat) : ∀ (vals : List (XmlVar × Val)) (st : Bool × Li
     rw [List.foldl_cons, rollStep_eq, ih]
     simp [Bool.or_assoc]
 
-theorem roll_succ (f j : Nat) (vals acc : List (XmlVar × Val)) :
+theorem foldl_congr_mem {α β : Type} (f g : β → α → β) : ∀ (l : List α) (b : β),
+    (∀ st, ∀ x ∈ l, f st x = g st x) → l.foldl f b = l.foldl g b
+  | [], _, _ => rfl
+  | x :: t, b, h => by
+    rw [List.foldl_cons, List.foldl_cons, h b x (by simp)]
+    exact foldl_congr_mem f g t _ (fun st y hy => h st y (by simp [hy]))
+
+/-- a fold over vars without token lists is the fold of `rollStep` (a token list is handed over
+whole, `rollStep` does not know about that) -/
+theorem foldl_rollStep (j : Nat) (g : Bool × List (XmlVar × Val) → XmlVar × Val → Bool × List (XmlVar × Val))
+    (vals : List (XmlVar × Val)) (hnt : ∀ vv ∈ vals, vv.1.tokens = false)
+    (hg : ∀ st vv, vv.1.tokens = false → g st vv = rollStep j st vv) (b : Bool × List (XmlVar × Val)) :
+    vals.foldl g b = vals.foldl (rollStep j) b :=
+  foldl_congr_mem g (rollStep j) vals b (fun st vv hvv => hg st vv (hnt vv hvv))
+
+theorem roll_succ (f j : Nat) (vals acc : List (XmlVar × Val)) (hnt : ∀ vv ∈ vals, vv.1.tokens = false) :
     nextValue.roll emitOfN (f + 1) j vals acc =
       if vals.any (rollsJ j) then nextValue.roll emitOfN f (j + 1) vals (acc ++ vals.flatMap (roundJ j))
       else acc := by
   rw [nextValue.roll]
   generalize hfold : List.foldl _ (false, ([] : List (XmlVar × Val))) vals = r
-  have h2 : vals.foldl (rollStep j) (false, []) = r := hfold
+  have h2 : vals.foldl (rollStep j) (false, []) = r := by
+    rw [← hfold]
+    symm
+    apply foldl_rollStep j _ vals hnt
+    intro st vv ht
+    obtain ⟨v, x⟩ := vv
+    simp only at ht
+    cases x <;> simp only [rollStep, ht, Bool.not_false, Bool.or_true, if_true]
+    rename_i xs
+    cases xs[j]? <;> rfl
   rw [roll_fold] at h2
   subst h2
   simp only [Bool.false_or, List.nil_append]
@@ -153,7 +177,8 @@ theorem filter_round (k : Str) (j : Nat) : ∀ (vals : List (XmlVar × Val)),
 
 /-- **the roll, per field**: the chunks of field `k`, in order, are its remaining items -/
 theorem roll_filter (k : Str) (vals : List (XmlVar × Val)) (L : Nat)
-    (hL : ∀ vv ∈ vals, ∀ xs, vv.2 = .list xs → xs.length ≤ L) (hnd : (vals.map (·.1.name)).Nodup) :
+    (hL : ∀ vv ∈ vals, ∀ xs, vv.2 = .list xs → xs.length ≤ L) (hnd : (vals.map (·.1.name)).Nodup)
+    (hnt : ∀ vv ∈ vals, vv.1.tokens = false) :
     ∀ (fuel j : Nat) (acc : List (XmlVar × Val)), L + 2 ≤ fuel + j →
     (nextValue.roll emitOfN fuel j vals acc).filter (fun c => c.1.name = k) =
       acc.filter (fun c => c.1.name = k) ++
@@ -173,7 +198,7 @@ theorem roll_filter (k : Str) (vals : List (XmlVar × Val)) (L : Nat)
       simp [this]
   | succ f ih =>
     intro j acc hb
-    rw [roll_succ]
+    rw [roll_succ _ _ _ _ hnt]
     by_cases hr : vals.any (rollsJ j) = true
     · simp only [hr, if_true]
       rw [ih (j + 1) _ (by omega), List.filter_append, filter_round k j vals hnd]
@@ -212,7 +237,8 @@ theorem mem_roundJ {j : Nat} {vv : XmlVar × Val} {c : XmlVar × Val} (h : c ∈
       exact ⟨rfl, hem, Or.inl rfl⟩
     · cases h
 
-theorem mem_roll {vals : List (XmlVar × Val)} {c : XmlVar × Val} :
+theorem mem_roll {vals : List (XmlVar × Val)} {c : XmlVar × Val}
+    (hnt : ∀ vv ∈ vals, vv.1.tokens = false) :
     ∀ (fuel j : Nat) (acc : List (XmlVar × Val)), c ∈ nextValue.roll emitOfN fuel j vals acc →
     c ∈ acc ∨ ∃ vv ∈ vals, ∃ j', c ∈ roundJ j' vv := by
   intro fuel
@@ -220,7 +246,7 @@ theorem mem_roll {vals : List (XmlVar × Val)} {c : XmlVar × Val} :
   | zero => intro j acc h; rw [nextValue.roll] at h; exact Or.inl h
   | succ f ih =>
     intro j acc h
-    rw [roll_succ] at h
+    rw [roll_succ _ _ _ _ hnt] at h
     split at h
     · rcases ih _ _ h with h' | h'
       · rcases List.mem_append.1 h' with h'' | h''
@@ -362,9 +388,13 @@ theorem GoSpec_slice {fields : List (Str × Val)} {slice : List XmlVar}
     (hfuel : L + 2 ≤ fuel) :
     GoSpec fields slice
       (nextValue.roll emitOfN fuel 0 (slice.map fun v => (v, look fields v.name)) []) := by
+  have hnt : ∀ vv ∈ slice.map (fun v => (v, look fields v.name)), vv.1.tokens = false := by
+    intro vv hvv
+    obtain ⟨v, hvs, rfl⟩ := List.mem_map.1 hvv
+    exact htok v hvs
   constructor
   · intro c hc
-    rcases mem_roll _ _ _ hc with h | ⟨vv, hvv, j', hcj⟩
+    rcases mem_roll hnt _ _ _ hc with h | ⟨vv, hvv, j', hcj⟩
     · cases h
     · obtain ⟨v, hvs, rfl⟩ := List.mem_map.1 hvv
       obtain ⟨hc1, hem, hc2⟩ := mem_roundJ hcj
@@ -396,7 +426,7 @@ theorem GoSpec_slice {fields : List (Str × Val)} {slice : List XmlVar}
   · intro k
     have hnd' : ((slice.map fun v => (v, look fields v.name)).map (·.1.name)).Nodup := by
       rw [List.map_map]; exact hnd
-    rw [roll_filter k _ L hL hnd' fuel 0 [] (by omega)]
+    rw [roll_filter k _ L hL hnd' hnt fuel 0 [] (by omega)]
     simp only [List.filter_nil, List.nil_append, List.find?_map]
     cases hf : slice.find? ((fun vv : XmlVar × Val => decide (vv.1.name = k)) ∘ fun v => (v, look fields v.name)) with
     | none =>
